@@ -37,6 +37,15 @@ ROWS = [
  ("C19-2","C19","common","affine shortcut taken when dx3 == 0 || dy3 == 0","a keystone trapezoid with exactly one of the two sums zero",["C19:T-PERSP"],False,""),
  ("C20-1","C20","oned","per-run early-out > turned into >=","a run deviating by exactly the allowed variance (e.g. limit 0.5, even module width)",["C20:M-INF"],False,""),
  ("C20-2","C20","oned","RecordPatternInReverse row-ended check >= 0 turned into > 0","the recorded runs start exactly at pixel 0 with an edge run >= 2 px",["C20:M-RECORD"],False,""),
+ ("C01-1","C01","qrcode/encoder","recommendVersion returns the provisional version without the second pass when it is <= 10","no version hint and a payload in the 9|10 boundary window (e.g. byte mode 272 chars at L): 'data bits cannot fit'",["C13:M-FIRSTFIT-QR","C01:M-FIRSTFIT-QR"],True,"M-FIRSTFIT-QR now classifies every return of recommendVersion (an early return of the provisional version is allowed only inside versions 1..9); the rule also runs under C01"),
+ ("C01-2","C01","qrcode","Kanji range split < 0x1F00 turned into <= (same mechanism as C15-1, written independently)","Kanji-mode content containing code 0xE040",["C01:S-SEG","C15:S-SEG"],False,""),
+ ("C01-3","C01","qrcode","pure-barcode extraction compares the recomputed right edge with the image height","PURE_BARCODE read of a landscape rendering whose bottom-right module is white",["C01:S-AXIS"],True,"added rule S-AXIS (x with width, y with height in extractPureBits / moduleSize; also for Data Matrix under C02)"),
+ ("C02-1","C02","datamatrix","x12HandleEOD decides the unlatch from the buffered count instead of the remaining characters","an X12 run ended by the look-ahead at a triplet boundary exactly when the provisional symbol is full",["C02:S-DMEOD"],True,"added rule S-DMEOD (x12HandleEOD folded over message/cursor/buffer/space states against the parser's implicit-unlatch condition)"),
+ ("C02-2","C02","datamatrix","generator polynomial row for 62 check codewords: 189 -> 198","1051..1304 data codewords (132x132) and 144x144",["C02:T-DMGEN","C08:T-DMGEN"],False,""),
+ ("C02-3","C02","datamatrix","macro 06 written without the trailer test","text starting with the 06 header but not ending with the trailer",["C02:S-DMMACRO"],True,"added rule S-DMMACRO"),
+ ("C03-1","C03","oned","code128ChooseCode lets a backtick stay in code set A","a control character followed by a backtick",["C03:S-C128SET"],True,"added rule S-C128SET (code128ChooseCode folded for every previous set / first character / continuation)"),
+ ("C03-2","C03","oned","Code 39 writer escapes only the part after the first non-native character","content needing extended mode with one of $ / + % before the first non-native character",["C03:S-1DEXT"],True,"added rule S-1DEXT (escape / unescape inverse pairs for Code 39 and Code 93, whole-contents conversion)"),
+ ("C03-3","C03","oned","ITF default allowed lengths extended to the stale list of the header comment","ITF content of length 22 or 26..42",["C03:T-ITFLEN"],True,"added rule T-ITFLEN"),
 ]
 for (sid, prop, pkg, breaks, needs, caught, missed, strengthened) in ROWS:
     d = "/verif/seeded/" + sid
